@@ -18,7 +18,7 @@
 EXTENDS MimeStream, Json, IOUtils, TLC, SequencesExt
 
 INSTANCE MimeBuild WITH MAXP <- 0, MAXE <- 0, MAXA <- 0, ENCS <- {}, PENCS <- {}, FENCS <- {}, CCS <- <<>>,
-                        PRODS <- <<>>, SRCS <- <<>>, ROTS <- {}, BOUNDARIES <- {}, DELS <- {}, HDRS <- {}, PDESCS <- {}, FDESCS <- {}, FNAMES <- {}, FCIDS <- {}, OPSEQS <- {}, FAULTS <- {}, ROUNDTRIP <- {},
+                        PRODS <- <<>>, SRCS <- <<>>, ROTS <- {}, BOUNDARIES <- {}, DELS <- {}, HDRS <- {}, PDESCS <- {}, FDESCS <- {}, FNAMES <- {}, FCIDS <- {}, OPSEQS <- {}, FAULTS <- {}, ROUNDTRIP <- {}, SMIMES <- {},
                         prog <- 0, pc <- 0
 
 Trace == ndJsonDeserialize(IOEnv.TRACE_FILE)
@@ -29,7 +29,7 @@ tvars == <<l, ms, b, lastline, viol1, viols, stats, second>>
 Ev == Trace[l]
 
 ZeroStats == [traces |-> 0, events |-> 0, lines |-> 0, outs |-> 0, faulted |-> 0, leaves |-> 0, hdrs |-> 0,
-              trees |-> 0, multiparts |-> 0, rerenders |-> 0, rts |-> 0]
+              trees |-> 0, multiparts |-> 0, rerenders |-> 0, rts |-> 0, smimes |-> 0, smimes2 |-> 0]
 
 TInit == /\ l = 1 /\ ms = MSInit /\ b = [t |-> 0] /\ lastline = 0 /\ second = FALSE
          /\ viol1 = {} /\ viols = {} /\ stats = ZeroStats
@@ -71,9 +71,11 @@ LeafValuesOK(lf, s) ==
 TreeFlags(e) ==
   LET np == Count(b.slots, "part")  ne == Count(b.slots, "embed")  na == Count(b.slots, "att")
       expected == ExpectedToks(np, ne, na)
-      byReader == Flatten(e.tree)
-      byLines  == ms.toks
-      lvs == LeavesOf(e.tree)
+      \* of a signed message the signed entity (first part of the multipart/signed wrapper) is judged
+      inner == IF b.signed /\ e.tree.mp = "signed" /\ Len(e.tree.kids) >= 1 THEN e.tree.kids[1] ELSE e.tree
+      byReader == Flatten(inner)
+      byLines  == IF b.signed /\ Len(ms.toks) >= 3 /\ ms.toks[1] = "(signed" THEN SubSeq(ms.toks, 2, Len(ms.toks) - 2) ELSE ms.toks
+      lvs == LeavesOf(inner)
       n == np + ne + na
   IN   F("C01_Structure", SameStructure(expected, byReader, n))
   \cup F("C01_StructureFromLines", SameStructure(expected, byLines, n))
@@ -82,6 +84,19 @@ TreeFlags(e) ==
   \cup F("C02_PartValues", Len(lvs) = n => \A i \in 1..n : LeafValuesOK(lvs[i], b.slots[i]))
   \cup F("C01_ReaderProblems", e.problems = <<>> \/ e.problems = [x \in {} |-> 0])
 
+(* C08: the rendering of a signed message as the independent CMS verifier of the harness found it *)
+SmimeFlags(e) ==
+       F("C08_Wrapper", e.wrapper = "signed" /\ e.nkids = 2 /\ e.sigtype = "application/pkcs7-signature" /\ e.sigcte = "base64")
+  \cup F("C08_ProtocolMicalg", e.protocol = "application/pkcs7-signature" /\ e.micalg = "sha-256" /\ (e.parsed => e.digestalg = "sha-256"))
+  \cup F("C08_SignedDataParses", e.parsed /\ e.detached)
+  \cup F("C08_DigestEqual", e.digest)
+  \cup F("C08_SignatureValid", e.sigvalid /\ e.signer /\ e.signerleaf)
+  \cup F("C08_IntermediateIncluded", e.wantinter => e.inter)
+  \* the harness' verifier and openssl must agree, otherwise the machinery is wrong (not a verdict)
+  \cup F("INFRA_OpensslDisagrees", e.openssl = "skipped" \/ ((e.openssl = "ok") <=> (e.digest /\ e.sigvalid /\ e.parsed)))
+  \* conformance with the prediction of Smime.tla
+  \cup F("DRIFT_C08_Digest", (b.haspredict /\ e.k \in DOMAIN b.predict.ok) => (b.predict.ok[e.k] <=> e.digest))
+
 OutFlags(e) ==
        F("C12_NoPanic", ~e.panic)
   \cup F("C12_ErrorOnFault", e.faulted => e.err)
@@ -89,6 +104,7 @@ OutFlags(e) ==
   \cup F("C12_CountOnSuccess", e.ok => e.n = e.len)
   \cup F("C11_SameBytes", e.ok => e.id = 1)
   \cup F("C11_RenderSucceeds", ~e.faulted => e.ok)
+  \cup F("C08_RenderSucceeds", (b.signed /\ ~e.faulted) => e.ok)
 
 Step ==
   /\ l <= Len(Trace)
@@ -119,6 +135,10 @@ Step ==
             /\ stats' = [stats EXCEPT !.trees = @ + 1,
                                       !.multiparts = @ + Cardinality({i \in DOMAIN ms.toks : ms.toks[i] = ")"})]
             /\ UNCHANGED <<b, lastline, viols, second>>
+       [] Ev.ev = "smime" ->
+            /\ viol1' = viol1 \cup SmimeFlags(Ev)
+            /\ stats' = [stats EXCEPT !.smimes = @ + 1, !.smimes2 = @ + (IF Ev.k > 1 THEN 1 ELSE 0)]
+            /\ UNCHANGED <<ms, b, lastline, viols, second>>
        [] Ev.ev = "leaf" ->
             /\ viol1' = viol1 \cup Tag(F("C01_ContentEqual", Ev.eq))
             /\ stats' = [stats EXCEPT !.leaves = @ + 1]
